@@ -254,7 +254,10 @@ def conservation_shard(args):
         marks = []
         for rnd in range(rounds):
             for i, p in enumerate(progs):
-                mode = rng.choice(["default", "every:5", "never", "sched:7:13"])
+                # (a collection costs time proportional to the heap: programs with tens of thousands of objects only under the
+                # default heuristic or without collections during evaluation)
+                big = re.search(rb"\b(6553[5-7]|70000)\b", p) is not None
+                mode = rng.choice(["default", "never"]) if big else rng.choice(["default", "every:5", "never", "sched:7:13"])
                 lines.append(f"GCMODE {mode}")
                 lines.append(f"LOAD {i} {hx('<p%d>' % i)} {hx(p)} 1")
                 lines.append(f"EVAL {i} {i} 0")
